@@ -22,6 +22,8 @@ GoodRB(e, X) == ~e.panic /\ SameBand(e.post, e.pre) /\ SameBand(e.rb, X)     \* 
 
 Explained(e) ==
   CASE e.op = "dense" -> ~e.panic /\ SameMat(e.rm, ToDense(e.pre))
+    \* the operand of a case as built through new / resize / in-band assignment: every in-band entry must sit in its slot
+    [] e.op = "built" -> ~e.panic /\ SameBand(e.post, e.want)
     [] e.op = "get" -> IF InBand(e.pre, e.i, e.j) THEN ~e.panic /\ e.ri = BGet(e.pre, e.i, e.j)
                        ELSE e.panic \/ e.ri = 0            \* off the band: refuse, or the dense twin's zero
     [] e.op = "dims" -> ~e.panic /\ e.rn = e.pre.n /\ e.rm1 = e.pre.m1 /\ e.rm2 = e.pre.m2
